@@ -11,12 +11,17 @@ impl VM {
     /// Runs the frame the caller has just pushed until it returns.
     /// On a runtime error that frame and everything above it is dropped again: a failed run
     /// must not stay on the frame stack, where the next run (host calls push their frame
-    /// without clearing the stack) would return into it and resume it.
+    /// without clearing the stack) would return into it and resume it.  The @no_gc depth
+    /// is put back to its value at entry for the same reason.
     pub fn run_fast(&mut self) -> Result<Value, RuntimeError> {
         let entry_depth = self.frames.len().saturating_sub(1);
+        let entry_no_gc_depth = self.no_gc_depth;
         let result = self.run_frames();
         if result.is_err() {
             self.frames.truncate(entry_depth);
+            // the @no_gc functions that were on the dropped frames never reached their
+            // ExitNoGc: leave the collector exactly as enabled as it was before the run
+            self.no_gc_depth = entry_no_gc_depth;
         }
         result
     }
